@@ -39,7 +39,8 @@ pub enum EskSpec {
 
 #[derive(Clone, Debug, Hash, PartialEq, Eq, Serialize, Deserialize)]
 pub struct MsgCfg {
-    /// 0 from_bytes, 1 from_reader, 2 from_file
+    /// 0 from_bytes, 1 from_reader, 2 from_file; +10: the builder options are set before the
+    /// encryption transition (`seipd_v1` / `seipd_v2`) instead of after it
     pub source: u8,
     /// 0 none, 1 zip, 2 zlib, 3 bzip2
     pub compression: u8,
@@ -282,11 +283,20 @@ pub fn build_sink<R: Read, W: Write>(
     }
     macro_rules! with_builder {
         ($b:expr) => {{
-            let b0 = $b;
+            #[allow(unused_mut)]
+            let mut b0 = $b;
+            // `source` 10..12: the options (compression, partial size, text mode, signers) are
+            // set on the plain builder BEFORE it is turned into an encrypting one, and not again
+            let early = cfg.source >= 10;
+            if early {
+                common!(b0);
+            }
             match cfg.enc {
                 Enc::None => {
                     let mut b = b0;
-                    common!(b);
+                    if !early {
+                        common!(b);
+                    }
                     finish(b, cfg, out, seed)
                 }
                 Enc::V1(sym) => {
@@ -294,7 +304,9 @@ pub fn build_sink<R: Read, W: Write>(
                         crate::engine::rng(seed ^ 0xA1),
                         SymmetricKeyAlgorithm::from(sym),
                     );
-                    common!(b);
+                    if !early {
+                        common!(b);
+                    }
                     esks_v1!(b);
                     finish(b, cfg, out, seed)
                 }
@@ -307,14 +319,16 @@ pub fn build_sink<R: Read, W: Write>(
                         AeadAlgorithm::from(aead),
                         cs,
                     );
-                    common!(b);
+                    if !early {
+                        common!(b);
+                    }
                     esks_v2!(b);
                     finish(b, cfg, out, seed)
                 }
             }
         }};
     }
-    match cfg.source {
+    match cfg.source % 10 {
         0 => {
             let bytes = bytes_for_mode0.expect("bytes for from_bytes");
             with_builder!(MessageBuilder::from_bytes(FILE_NAME, bytes))
@@ -368,6 +382,8 @@ pub struct ReadBack {
     pub is_binary_mode: bool,
     pub created: u32,
     pub sig_valid: Vec<bool>,
+    /// signature type octet of every verifying signature
+    pub sig_types: Vec<u8>,
 }
 
 /// How the reading side pulls the payload.
@@ -376,6 +392,10 @@ pub enum Pull {
     ToEnd,
     Fixed(usize),
     BufRead,
+    /// the convenience readers `as_data_vec` / (for valid UTF-8) `as_data_string`
+    Convenience,
+    /// `verify_read` for signed messages (drains, then verifies), `read_to_end` otherwise
+    Drain,
 }
 
 pub fn pull(msg: &mut Message<'_>, how: Pull) -> std::io::Result<Vec<u8>> {
@@ -393,6 +413,20 @@ pub fn pull(msg: &mut Message<'_>, how: Pull) -> std::io::Result<Vec<u8>> {
                     break;
                 }
                 out.extend_from_slice(&buf[..k]);
+            }
+        }
+        Pull::Convenience => {
+            out = msg.as_data_vec()?;
+        }
+        Pull::Drain => {
+            // what is discarded cannot be compared: only the verdicts are observed on this path
+            let mut sink = [0u8; 4096];
+            loop {
+                let k = msg.read(&mut sink)?;
+                if k == 0 {
+                    break;
+                }
+                out.extend_from_slice(&sink[..k]);
             }
         }
         Pull::BufRead => loop {
@@ -504,14 +538,19 @@ pub fn read_back_mode(
     let certs: Vec<_> = cfg.signers.iter().map(|(k, _)| cert(*k, 1)).collect();
     let pubs: Vec<_> = certs.iter().map(|c| c.primary_key.public_key()).collect();
     let keys: Vec<&dyn VerifyingKey> = pubs.iter().map(|p| p as &dyn VerifyingKey).collect();
-    let sig_valid = if keys.is_empty() {
-        vec![]
+    let (sig_valid, sig_types): (Vec<bool>, Vec<u8>) = if keys.is_empty() {
+        (vec![], vec![])
     } else {
-        msg.verify_nested(&keys)
-            .map_err(|e| format!("verify_nested: {e}"))?
-            .iter()
-            .map(|r| matches!(r, VerificationResult::Valid(_)))
-            .collect()
+        let rs = msg.verify_nested(&keys).map_err(|e| format!("verify_nested: {e}"))?;
+        (
+            rs.iter().map(|r| matches!(r, VerificationResult::Valid(_))).collect(),
+            rs.iter()
+                .filter_map(|r| match r {
+                    VerificationResult::Valid(sig) => sig.typ().map(u8::from),
+                    _ => None,
+                })
+                .collect(),
+        )
     };
     Ok(ReadBack {
         data,
@@ -519,5 +558,6 @@ pub fn read_back_mode(
         is_binary_mode,
         created,
         sig_valid,
+        sig_types,
     })
 }
